@@ -44,6 +44,26 @@ WHAT = {
     'C17-2': ('`ParseError` export no longer enabled by eval_complex alone', '`--features eval_complex` build'),
     'C18-1': ('`Number::from(f64)`: upper bound inclusive again', 'exactly 2^63'),
     'C18-2': ('`Number::from(i64)` routed through the f64 conversion', '|v| > 2^53'),
+    'C02-3': ('eval_i64 `n!`: overflow test moved out of the loop (`Option` accumulator, `and_then`)', '`9223372036854775807!` loops 2^63 times; every returned value unchanged'),
+    'C02-4': ('eval_f64 `min`: a new running minimum is evaluated twice', 'nested `min(min(..),..)`: 2^depth calls, values unchanged'),
+    'C03-3': ('eval_number: the literal-after-literal guard narrowed to Integer literals', '`1.2.3` (lexes as 1.2 and .3) evaluates to 0.36'),
+    'C03-4': ('eval_i64 tokenizer: a lone `<` / `>` lexes as a shift (`next_if_eq`)', '`1<4` = 16'),
+    'C06-3': ('eval_i64 `^`: exponent range test off by one (`> 1 << 32`)', 'exactly `2^4294967296`: the cast to u32 wraps to 0, result 1'),
+    'C06-4': ('eval_i64 tokenizer: literals parsed as u64 and cast to i64', 'literals in 2^63..2^64-1 wrap instead of being rejected'),
+    'C09-3': ('eval_number `^` overflow fallback uses `powi(b as i32)`', 'exponents >= 2^31 wrap negative: `2^2147483648` = Integer(0)'),
+    'C09-4': ('`Number::from(f64)`: `< f64::EPSILON` instead of `== 0.0`', 'results in (0, 2^-52): `0.5^60` = Integer(0)'),
+    'C10-3': ('`Number::from(f64)`: `< f64::EPSILON` instead of `== 0.0` (found independently of C09-4)', '`exp(-40)` = Integer(0)'),
+    'C10-4': ('eval_i64 `exp(x)` as `E.powi(x)`', '`exp(33)`, `exp(35)`, `exp(36)` off by 1..6'),
+    'C11-3': ('eval_i64 `gcd`: stops evaluating once the running gcd is 1', '`gcd(3,2,1/0)` = 1 instead of Err'),
+    'C11-4': ('eval_f64 `med`: sorts by the bit pattern (`sort_by_key(to_bits)`)', 'a negative argument: `med(-1,2,3)` = 3'),
+    'C13-3': ('eval_number wrapper: `split_ascii_whitespace`', 'U+00A0, U+2009, U+3000 ..'),
+    'C13-4': ('eval_i64 prefix `+`: operand parsed at Multiplicative level', '`-+2^2` = -4 while `-2^2` = 4'),
+    'C15-1': ('eval_number exact factorial range `0..20` (exclusive)', '`20!` becomes a Float while eval_i64 gives the integer'),
+    'C15-2': ('eval_decimal implicit multiplication: right factor parsed at Power level', '`2(3)^2` = 36 in eval_decimal, 18 in eval_f64'),
+    'C19-1': ('eval_number tokenizer: point-free literals of 19+ characters become Float', '`9223372036854775807`, `0000000000000000000007`'),
+    'C19-2': ('eval_decimal tokenizer: literals with a 29-digit mantissa rounded to 28 digits', 'printed results such as `50/7` do not read back'),
+    'C20-1': ('eval_i64 `/`: shift short-cut when the divisor *node* is a power-of-two literal', '`(0-7)/@` with 2 gives -4, `(0-7)/(1+1)` gives -3'),
+    'C20-2': ('eval_number wrapper passes a Float result through `Number::from`', '`(0.5*40)!` vs `@!` with Integer(20)'),
 }
 
 
